@@ -27,7 +27,9 @@ CONSTANTS N,        \* number of entries in the sender's view
           PC,       \* pipeline capacity
           NC,       \* network capacity per direction
           QC,       \* receiver walk queue capacity
-          ReadErrAllowed, FixWorkerErr, FixQueueCtx
+          ReadErrAllowed, FixWorkerErr, FixQueueCtx,
+          WriterLimit \* 0 = unbounded (the code as it is); n > 0 = a seeded variant: errgroup.SetLimit(n) on the async writers, so the
+                      \* diff goroutine blocks in eg.Go while n requested files wait for their data
 
 Ids == 0..(N-1)
 Workers == 1..W
@@ -172,7 +174,9 @@ REOF == /\ rRecv \in {"run", "drain"} /\ (torn \/ (s2r = <<>> /\ sRet # "none"))
         /\ UNCHANGED <<s2r, r2s, sWalk, sFiles, sPipe, sPipeClosed, sWk, sRecv, sCancelled, sRet, rI, rFiles, rQ, rQClosed, rDiff, rWr, rPipes, rGot, rRet, faults, sHeld, torn>>
 
 \* diff goroutine: takes next entry; spawns a writer if it needs data
+ActiveWriters == Cardinality({i \in Ids : rWr[i] \in {"start", "wait", "closed"}})
 RDiffStep == /\ rDiff = "run" /\ rQ # <<>> /\ ~rCancelled
+             /\ (WriterLimit = 0 \/ Head(rQ) \notin NeedsData \/ ActiveWriters < WriterLimit)
              /\ LET i == Head(rQ) IN
                 /\ rQ' = Tail(rQ)
                 /\ IF i \in NeedsData THEN rWr' = [rWr EXCEPT ![i] = "start"] ELSE UNCHANGED rWr
@@ -222,6 +226,12 @@ Next == \/ SWalkStat \/ SWalkEnd \/ SWalkAbort \/ SRecvMsg \/ SQueue \/ SRecvEOF
         \/ \E i \in Ids : RWriterReq(i) \/ RWriterDone(i) \/ RWriterAbort(i)
         \/ Terminated
 
+\* everything except the environment's teardown and the final stuttering
+NextNoEnv == \/ SWalkStat \/ SWalkEnd \/ SWalkAbort \/ SRecvMsg \/ SQueue \/ SRecvEOF \/ SReturn
+             \/ \E w \in Workers : SWorkerTake(w) \/ SWorkerExit(w) \/ SWorkerSend(w) \/ SWorkerSendFail(w) \/ SWorkerReadErr(w) \/ SWorkerErrSend(w)
+             \/ RRecvMsg \/ REOF \/ RDiffStep \/ RDiffEnd \/ RDiffFin \/ RDiffAbort \/ RReturn
+             \/ \E i \in Ids : RWriterReq(i) \/ RWriterDone(i) \/ RWriterAbort(i)
+
 Spec == Init /\ [][Next]_vars /\ WF_vars(Next)
 
 \* ---- properties ----
@@ -230,5 +240,8 @@ SendOKImpliesFin == sRet = "ok" => rDiff = "fin"
 NoDataOverrun == \A i \in Ids : rGot[i] <= K
 BothTerminate == <>Done
 \* after the teardown nobody may stay blocked: expressed as deadlock freedom (EnvTearDown is enabled in every earlier state)
+\* two conforming peers never get stuck on their own: while the stream is intact and no call has returned with the other
+\* still running, something other than the environment can always move (C08 / C11: no schedule needs the teardown)
+ProgressWithoutEnvironment == (~torn /\ ~Done) => ENABLED NextNoEnv
 TypeOK == sHeld \in -1..(N - 1) /\ torn \in BOOLEAN
 ====
